@@ -2,6 +2,7 @@ package rates
 
 import (
 	"fmt"
+	"math/big"
 	"time"
 
 	sdk "github.com/cosmos/cosmos-sdk/types"
@@ -202,7 +203,7 @@ func (f *fixture) project(e *sim.Env, kind string, app, id uint64) posProj {
 		if !ok {
 			return posProj{DebtL: []int64{}, Frac: zeroVal()}
 		}
-		p := posProj{Found: true, DebtL: sim.Limbs(l.NetBalance.BigInt()), Frac: zeroVal()}
+		p := posProj{Found: true, DebtL: sim.Limbs(l.ReturnsAccumulated.BigInt()), Frac: zeroVal()} // savings booked so far
 		if t, ok := e.App.Rewardskeeper.GetLockerRewardTracker(e.Ctx, id, app); ok {
 			p.Frac = decVal(t.RewardsAccumulated)
 		}
@@ -229,6 +230,51 @@ func (f *fixture) project(e *sim.Env, kind string, app, id uint64) posProj {
 }
 
 var gaps = []int64{0, 0, 1, 5, 6, 60, 3600, 86400, 604800, 2629800, 31557600, 94672800}
+const epochMax = int64(1800000000) // an epoch is cut before its elapsed time leaves the 32-bit range of TLC
+
+var burstGaps = []int64{0, 1, 1, 2, 2, 2, 5, 6, 6, 30}
+
+// inForce reads, before a trigger, what the trigger will accrue on: the accrual function behind the entry point, the
+// principal it is given and the yearly rate in force (all from the real state).
+func (f *fixture) inForce(e *sim.Env, kind, via string, app, id uint64) (string, sdk.Int, sdk.Dec) {
+	fn, p, r, _, _ := f.inForceX(e, kind, via, app, id)
+	return fn, p, r
+}
+
+// inForceX additionally returns the stored global index the index path divides by (1 where there is none) and whether the
+// position carries its own accrual timestamp that is older than the moment the product's rate was last switched on.
+func (f *fixture) inForceX(e *sim.Env, kind, via string, app, id uint64) (string, sdk.Int, sdk.Dec, sdk.Dec, bool) {
+	one := sdk.OneDec()
+	switch kind {
+	case "vault":
+		v, _ := e.App.VaultKeeper.GetVault(e.Ctx, id)
+		pv, _ := e.App.AssetKeeper.GetPairsVault(e.Ctx, v.ExtendedPairVaultID)
+		stale := v.BlockHeight != 0 && v.BlockTime.Before(pv.BlockTime) && !pv.StabilityFee.IsZero()
+		if via == "rate-update" {
+			return FnRewards, v.AmountOut, pv.StabilityFee, one, stale
+		}
+		return FnRewards, v.AmountOut.Add(v.InterestAccumulated), pv.StabilityFee, one, stale
+	case "locker":
+		l, _ := e.App.LockerKeeper.GetLocker(e.Ctx, id)
+		c, _ := e.App.CollectorKeeper.GetCollectorLookupTable(e.Ctx, app, f.debt)
+		stale := l.BlockHeight != 0 && l.BlockTime.Before(c.BlockTime) && !c.LockerSavingRate.IsZero()
+		return FnRewards, l.NetBalance, c.LockerSavingRate, one, stale
+	case "lend":
+		l, _ := e.App.LendKeeper.GetLend(e.Ctx, id)
+		apr, _ := e.App.LendKeeper.GetLendAPRByAssetIDAndPoolID(e.Ctx, l.PoolID, l.AssetID)
+		return FnLend, l.AmountIn.Amount, apr, l.GlobalIndex, false
+	case "borrow":
+		b, _ := e.App.LendKeeper.GetBorrow(e.Ctx, id)
+		if b.IsStableBorrow {
+			return FnStable, b.AmountOut.Amount, b.StableBorrowRate, one, false
+		}
+		pair, _ := e.App.LendKeeper.GetLendPair(e.Ctx, b.PairID)
+		apr, _ := e.App.LendKeeper.GetBorrowAPRByAssetID(e.Ctx, pair.AssetOutPoolID, pair.AssetOut, false)
+		return FnBorrow, b.AmountOut.Amount, apr, b.GlobalIndex, false
+	}
+	panic(kind)
+}
+
 
 func keeperRuns(lg *sim.Log, seed int64, runs, steps int) (int, error) {
 	if runs == 0 {
@@ -239,6 +285,9 @@ func keeperRuns(lg *sim.Log, seed int64, runs, steps int) (int, error) {
 	kinds := []string{"vault", "locker", "lend", "borrow"}
 	for r := 0; r < runs; r++ {
 		kind := kinds[r%len(kinds)]
+		// every second run of a kind is a burst: smallest principal, triggers seconds apart, so that consecutive
+		// accruals stay below one base unit (only the tracker's fraction moves)
+		burst := (r/len(kinds))%2 == 1
 		e := f.e.Branch()
 		run := fmt.Sprintf("keeper:%s:%d:%d", kind, seed, r)
 		var id, app uint64
@@ -246,12 +295,16 @@ func keeperRuns(lg *sim.Log, seed int64, runs, steps int) (int, error) {
 		var open sim.Result
 		var calc func() sdk.Msg
 		var reprice func(r string) error // governance-style change of the position's rate (accrues at the old rate first)
+		var other func() sdk.Msg         // another message of the owner that runs the accrual on its way (vault: deposit 1 unit of collateral; locker: deposit 1 unit)
 		app = f.app
 		switch kind {
 		case "vault":
 			i := rng.Intn(len(f.extPairs))
 			rate = f.fees[i]
 			out := []int64{1000000, 1234567, 200000000, 999999999999}[rng.Intn(4)]
+			if burst {
+				out = []int64{1000000, 1234567, 200000000}[rng.Intn(3)]
+			}
 			principal = fmt.Sprint(out)
 			open = e.Deliver(vaulttypes.NewMsgCreateRequest(f.user, f.app, f.extPairs[i], sdk.NewInt(out).MulRaw(2), sdk.NewInt(out)))
 			for _, v := range e.App.VaultKeeper.GetVaults(e.Ctx) {
@@ -259,6 +312,7 @@ func keeperRuns(lg *sim.Log, seed int64, runs, steps int) (int, error) {
 			}
 			vid, xp := id, f.extPairs[i]
 			calc = func() sdk.Msg { return vaulttypes.NewMsgVaultInterestCalcRequest(f.user, f.app, vid) }
+			other = func() sdk.Msg { return vaulttypes.NewMsgDepositRequest(f.user, f.app, xp, vid, sdk.NewInt(1)) }
 			reprice = func(r string) error {
 				return e.App.AssetKeeper.WasmUpdatePairsVault(e.Ctx, &bindings.MsgUpdatePairsVault{AppID: f.app, ExtPairID: xp, StabilityFee: sdk.MustNewDecFromStr(r),
 					ClosingFee: sdk.ZeroDec(), LiquidationPenalty: sdk.NewDecWithPrec(15, 2), DrawDownFee: sdk.NewDecWithPrec(1, 2), IsVaultActive: true,
@@ -268,6 +322,9 @@ func keeperRuns(lg *sim.Log, seed int64, runs, steps int) (int, error) {
 			i := rng.Intn(len(f.lsrApp))
 			rate, app = f.lsr[i], f.lsrApp[i]
 			amt := []int64{1000000, 7654321, 50000000000, 3000000000000000}[rng.Intn(4)]
+			if burst {
+				amt = []int64{1000000, 7654321}[rng.Intn(2)]
+			}
 			principal = fmt.Sprint(amt)
 			open = e.Deliver(lockertypes.NewMsgCreateLockerRequest(f.user.String(), sdk.NewInt(amt), f.debt, app))
 			for _, l := range e.App.LockerKeeper.GetLockers(e.Ctx) {
@@ -275,6 +332,7 @@ func keeperRuns(lg *sim.Log, seed int64, runs, steps int) (int, error) {
 			}
 			lid, lapp := id, app
 			calc = func() sdk.Msg { return lockertypes.NewMsgLockerRewardCalcRequest(f.user.String(), lapp, lid) }
+			other = func() sdk.Msg { return lockertypes.NewMsgDepositAssetRequest(f.user.String(), lid, sdk.NewInt(1), f.debt, lapp) }
 			reprice = func(r string) error {
 				return e.App.CollectorKeeper.WasmUpdateCollectorLookupTable(e.Ctx, &bindings.MsgUpdateCollectorLookupTable{AppID: lapp, AssetID: f.debt,
 					DebtThreshold: sdk.NewInt(5000000), SurplusThreshold: sdk.NewInt(10000000), LotSize: sdk.NewInt(2000000), DebtLotSize: sdk.NewInt(2000000),
@@ -282,6 +340,9 @@ func keeperRuns(lg *sim.Log, seed int64, runs, steps int) (int, error) {
 			}
 		case "lend", "borrow":
 			lendAmt := []int64{100000000, 123456789, 700000000000}[rng.Intn(3)]
+			if burst {
+				lendAmt = []int64{100000000, 123456789}[rng.Intn(2)]
+			}
 			// liquidity of the borrowed asset + the user's own lend position
 			if res := e.Deliver(lendtypes.NewMsgFundModuleAccounts(f.lendPool, f.lendB, f.user.String(), sdk.NewCoin("ulendb", sdk.NewInt(lendAmt*2)))); !res.OK {
 				return 0, fmt.Errorf("fund pool: %s", res.Err)
@@ -308,22 +369,59 @@ func keeperRuns(lg *sim.Log, seed int64, runs, steps int) (int, error) {
 			calc = func() sdk.Msg { return lendtypes.NewMsgCalculateInterestAndRewards(f.user.String()) }
 		}
 		p := f.project(e, kind, app, id)
-		par := lg.Add(0, run, "Open", map[string]interface{}{"kind": kind, "rate": rate, "principal": principal, "dt": 0},
+		par := lg.Add(0, run, "Open", map[string]interface{}{"kind": kind, "rate": rate, "principal": principal, "dt": 0, "burst": burst},
 			map[string]interface{}{"ok": open.OK, "err": open.Err}, p)
 		if !open.OK || !p.Found {
 			continue
 		}
+		// epoch = maximal sequence of consecutive triggers that accrue on the same principal at the same rate; T = time
+		// elapsed in the epoch, k = triggers in it. The real accrual function is evaluated once for (principal, rate, T):
+		// the single accrual that the triggers of the epoch together must not exceed (judged by TLC, not here).
+		var epP, epR, epFn string
+		var epT, epK int64
 		for s := 0; s < steps; s++ {
 			dt := gaps[rng.Intn(len(gaps))]
 			if rng.Intn(4) == 0 {
 				dt = int64(rng.Intn(100000))
 			}
+			if burst {
+				dt = burstGaps[rng.Intn(len(burstGaps))]
+			}
 			e.Ctx = e.Ctx.WithBlockHeight(e.Ctx.BlockHeight() + 1).WithBlockTime(e.Ctx.BlockTime().Add(time.Duration(dt) * time.Second))
 			var res sim.Result
 			via := "msg"
-			if reprice != nil && rng.Intn(6) == 0 {
-				// the rate of the product is changed: every position first accrues at the old rate up to now
+			odds := 6
+			if burst {
+				odds = 12
+			}
+			switch x := rng.Intn(odds); {
+			case x == 0 && reprice != nil:
 				via = "rate-update"
+			case x == 1 && other != nil:
+				via = "deposit"
+			}
+			fn, fP, fR, fIdx, stale := f.inForceX(e, kind, via, app, id)
+			if fn == epFn && fP.String() == epP && fR.String() == epR && epT <= epochMax-dt {
+				epT, epK = epT+dt, epK+1
+			} else {
+				// first trigger on this (function, principal, rate): it settles whatever was pending; the state after it is
+				// the base line of the epoch, T and k count what follows
+				epFn, epP, epR, epT, epK = fn, fP.String(), fR.String(), 0, 0
+			}
+			// ceil(1 / stored index): a unit in the last stored place of the index weighs this much in the index factor
+			iv := big.NewInt(1)
+			if fIdx.IsPositive() {
+				q, m := new(big.Int).QuoRem(sdk.OneDec().BigInt(), fIdx.BigInt(), new(big.Int))
+				if m.Sign() != 0 {
+					q.Add(q, big.NewInt(1))
+				}
+				if q.Sign() > 0 {
+					iv = q
+				}
+			}
+			switch via {
+			case "rate-update":
+				// the rate of the product is changed: every position first accrues at the old rate up to now
 				nr := []string{"0", "0.001", "0.02", "0.1", "0.5"}[rng.Intn(5)]
 				res = func() (r sim.Result) {
 					old := e.Ctx
@@ -345,12 +443,20 @@ func keeperRuns(lg *sim.Log, seed int64, runs, steps int) (int, error) {
 				if res.OK {
 					rate = nr
 				}
-			} else {
+			case "deposit":
+				res = e.Deliver(other())
+			default:
 				res = e.Deliver(calc())
 			}
+			single, _ := evalFn(e, fn, fP, fR, epT, sdk.OneDec())
+			single0, _ := evalFn(e, fn, fP, fR, dt, sdk.OneDec()) // one accrual over the time since the previous trigger
 			p = f.project(e, kind, app, id)
-			par = lg.Add(par, run, "Accrue", map[string]interface{}{"kind": kind, "via": via, "rate": rate, "principal": principal, "dt": dt},
-				map[string]interface{}{"ok": res.OK, "err": res.Err, "panic": res.Panic}, p)
+			par = lg.Add(par, run, "Accrue",
+				map[string]interface{}{"kind": kind, "via": via, "rate": rate, "principal": principal, "dt": dt, "burst": burst,
+					"fn": fn, "P": epP, "PL": sim.Limbs(fP.BigInt()), "r": epR, "T": epT, "k": epK,
+					"idxL": sim.Limbs(fIdx.BigInt()), "ivL": sim.Limbs(iv), "stale": stale},
+				map[string]interface{}{"ok": res.OK, "err": res.Err, "panic": res.Panic},
+				map[string]interface{}{"debtL": p.DebtL, "frac": p.Frac, "found": p.Found, "single": single, "single0": single0})
 		}
 	}
 	return 0, nil
